@@ -22,7 +22,7 @@ AllQuirks == {
 
 \* repaired by "fix:" commits in /repo (see /verif/known_findings.json, section fixed)
 FixedQuirks == {"zeroBeforeEmbedGuard", "emptyMsgNotAlloc", "makeBeforeNullGuard", "embedNeverReset",
-                "staleMapKeys", "staleOnNilSource", "placeholderAssigned", "mapBytesType"}
+                "staleMapKeys", "staleOnNilSource", "placeholderAssigned", "mapBytesType", "oneofResetDeclOrder"}
 
 \* what the current tree does
 Quirks == AllQuirks \ FixedQuirks
